@@ -106,6 +106,53 @@ func verifH_C20_derive() {
 	verifIsRendering(w, v, d, "code")
 }
 
+// ... also as the second derivation of a module instance: after a derivation with another (or
+// the same) hash and the same or another key, the code is still the RFC 4226 value for its own
+// hash, key and counter (whatever the implementation keeps between calls).
+//
+//verif:harness prop=C20 name=derivehistory
+//verif:cases quick alg1=0,1 alg=0,2 samekey=0,1 digits=6
+//verif:cases thorough alg1=0..2 alg=0..2 samekey=0,1 digits=6,10
+//verif:opt prove_timeout=90
+func verifH_C20_derivehistory() {
+	d := verifCase("digits")
+	alg := verifCase("alg")
+	key := verifBytes("key", 10)
+	key1 := key
+	if verifCase("samekey") == 0 {
+		key1 = verifBytes("key1", 10)
+		verifPrefer(key1[0] != key[0])
+	}
+	counter := verifU64("counter")
+	_, err1 := otp.DeriveRFC4226Wasm(key1, verifU64("counter1"), 6, otp.Algorithm(verifCase("alg1")))
+	verifAssert(err1 == nil, "first-no-error")
+	w, werr := otp.DeriveRFC4226Wasm(key, counter, d, otp.Algorithm(alg))
+	verifObserve("wasm", w)
+	verifAssert(werr == nil, "no-error")
+	if !verifSymbolic() {
+		n, nerr := otp.GenerateHOTP(verifEnc32(key), counter, &otp.Param{Digits: otp.Digits(d), Algorithm: otp.Algorithm(alg)})
+		verifAssert(nerr == nil && w == n, "code/value")
+		return
+	}
+	verifAssert(verifHMACCount() == 2, "one-hmac-per-derivation")
+	if verifHMACCount() != 2 {
+		return
+	}
+	verifAssert(verifHMACAlg(1) == alg, "hash-of-argument")
+	msg := verifHMACMsg(1)
+	ok := len(msg) == 8
+	if len(msg) == 8 {
+		for i := 0; i < 8; i++ {
+			ok = verifAnd(ok, msg[i] == byte(counter>>(56-8*uint(i))))
+		}
+	}
+	verifAssert(ok, "message-big-endian-counter")
+	verifAssert(verifBytesEq(verifHMACKey(1), key), "key-is-secret")
+	D := verifHMACDigest(1)
+	v := uint64(verifSpecDT(D)) % verifPow10(d)
+	verifIsRendering(w, v, d, "code")
+}
+
 // unsupported hash: error (same as native)
 //
 //verif:harness prop=C20 name=derivebad
